@@ -243,7 +243,12 @@ class Sweep:
     # -- one grid case -------------------------------------------------------------------------
     def run_case(self, case: Case, entries: tuple[str, ...]) -> None:
         ctx = self.ctx
-        case.out = run_entries(self.rig, case.spec.kind, case.text, entries)
+        # the community list parsers are quadratic in the number of elements: slow is not hanging
+        self.rig.timeout = 2.0 if not case.spec.slow else 30.0 + (case.value or 0) ** 2 / 100000.0
+        try:
+            case.out = run_entries(self.rig, case.spec.kind, case.text, entries)
+        finally:
+            self.rig.timeout = 2.0
         ctx.evaluations += 1
         ctx.count('kind:' + case.spec.kind)
         ctx.count('class:' + case.cls)
@@ -967,38 +972,48 @@ def file_line_case(ctx: Ctx, sw: Sweep) -> None:
 
 
 def replay(path: str) -> int:
+    """Re-execute one recorded case on the current tree; exit status 1 when the oracle still fails on it."""
+    import random
+
     data = json.loads(open(path).read())
     rp = data['replay']
     rig = fr.Rig()
-    if rp.get('stream') == 'file-line':
-        print(rp['file'])
-        print('see coverage.file_line of a run; re-run ./check C18')
-        return 1
-    kind = rp['kind']
-    text = rp.get('text')
-    if text is None:
-        spec = spec_by(rp['field'])
-        text = fr.render(spec, spec.count(rp['count']))
-    print('text    :', text[:300])
-    out = run_entries(rig, kind, text, ('text', 'api', 'handler', 'file') if rp.get('stream') not in ('junk', 'soup', 'history') else ('text', 'api', 'handler'))
-    for name, o in out.items():
-        if name == 'handler':
-            print(f'{name:8s}:', o[0], o[2][:200])
-        elif name == 'file':
-            print(f'{name:8s}:', o[0].short(), o[0].detail[:200].replace('\n', ' / '))
-        else:
-            print(f'{name:8s}:', o.short(), o.detail[:200].replace('\n', ' / '))
-    routes = accepted_routes(out)
-    bad = any((o[0] == 'raised') if n == 'handler' else ((o[0] if n == 'file' else o).status == 'raised') for n, o in out.items())
-    if routes is not None:
-        for sh in rig.shapes:
-            try:
-                msgs = rig.encode(sh, routes)
-                u = rig.decode(sh, msgs[0])
-                print(f'{sh.name:28s}:', msgs[0][19:].hex()[:120], '|', text_of(u)[:160])
-            except Exception as e:  # noqa: BLE001
-                bad = True
-                print(f'{sh.name:28s}: raises', fr._exc(e))
-    print('what    :', data.get('what'))
-    print('canon   :', data.get('canon'))
-    return 1 if bad or data.get('canon') else 0
+    ctx = Ctx(prop=PROP, tier='quick', seed=0, rng=random.Random(0))
+    ctx.deadline = time.time() + 600
+    sw = Sweep(ctx, rig)
+    sw.load_limits()
+    stream = rp.get('stream', 'grid')
+    print('recorded:', data.get('canon'))
+    print('          ', data.get('what'))
+    if stream in ('junk', 'soup'):
+        verdict, detail = junk_outcome(rig, rp['kind'], rp['text'])
+        print('text    :', rp['text'])
+        print('now     :', verdict, detail)
+        return 0 if verdict in ('ok', 'refused') else 1
+    if stream == 'history':
+        history_cases(ctx, sw)
+    elif stream == 'file-line':
+        file_line_case(ctx, sw)
+        print('file_line:', ctx.extra.get('file_line'))
+    elif rp.get('field') == 'asPathCount':
+        aspath_counts(ctx, sw)
+    else:
+        spec = next(s for s in fr.FIELDS if s.template == rp['template'])
+        vtext = spec.count(rp['count']) if rp.get('count') is not None and spec.count else rp['vtext']
+        case = Case(spec, vtext, rp.get('value'), rp['class'], 'replay')
+        sw.run_case(case, ('text', 'api', 'handler', 'file'))
+        print('text    :', case.text[:300])
+        for name, o in case.out.items():
+            if name == 'handler':
+                print(f'{name:8s}:', o[0], o[2][:200])
+            else:
+                oc = o[0] if name == 'file' else o
+                print(f'{name:8s}:', oc.short(), oc.detail[:200].replace('\n', ' / '))
+        for r in case.shapes:
+            print(f'  {r["shape"]:26s}', {k: v for k, v in r.items() if k not in ("shape", "kind", "present", "sizes")})
+        sw.judge(case, lean_batch([case], sw))
+    for f in ctx.failures:
+        print('now     :', f.canon, '|', f.what)
+    if not ctx.failures:
+        print('now     : the oracle holds on this case')
+    return 1 if ctx.failures else 0
